@@ -27,13 +27,14 @@ RULE = ('generated designed meshes (power / PSD / PSW equalisation, ROADM add-dr
         'probe on a fresh copy. Non-trivial: a request with a threshold within 0.5 dB of its metric, or an automatic '
         'request with >=2 candidate modes of which some are feasible and some not. Distinct: hash of (topology, '
         'library, request).')
-ASSUMPTIONS = ['a rounded metric equal to threshold + margin is judged for the fixed mode of one-directional requests only '
-               '(accepted: "at least"); in the adversarial / automatic-selection cases it is not generated / not judged',
+ASSUMPTIONS = ['a rounded metric equal to threshold + margin is judged in dedicated runs only (fixed mode of one-directional '
+               'requests; automatic selection of the first explored mode of one-directional requests): accepted, "at '
+               'least"; in the adversarial-threshold cases it is not generated / not judged',
                'the fixed-mode evaluation on a fresh deep copy of the designed network is the reference for what a '
                'mode achieves on a route', 'figures compared to 1e-6 dB']
 REQUIRED_COUNTERS = {'receiver_gsnr_checks': 60, 'penalty_checks': 60, 'fixed_verdict_checks': 60,
                      'auto_selection_checks': 20, 'thresholds_within_half_db': 30, 'penalty_out_of_table': 2,
-                     'worst_channel_is_not_lowest_gsnr': 2, 'fixed_verdict_on_threshold_checks': 20}
+                     'worst_channel_is_not_lowest_gsnr': 2, 'fixed_verdict_on_threshold_checks': 20, 'auto_selection_on_threshold_checks': 10}
 CASE_TIMEOUT = {'quick': 300, 'thorough': 600}
 TRX = 'vfTrx'
 ALT = {}
@@ -418,6 +419,32 @@ def run_case(case, ctx):
                                   mechanism=auto_mech(same_baud_diff_offset, sat))
                 sel_mode = next(m for m in trx2['mode'] if m['format'] == best)
                 check_receiver(ctx, ej2, tj, prop[0], sel_mode, f'auto {best} {a}->{z}')
+                if not bidir and not sat and not same_baud_diff_offset and best == order_doc[0]['format'] \
+                        and blocked is None:
+                    # ---- the same automatic run with the selected (first explored) mode's threshold + margin moved
+                    # exactly onto its rounded metric: "at least" still selects it
+                    arr = prop[0][-1].snr_01nm - prop[0][-1].total_penalty
+                    base = float(round(min(arr), 2))            # the very expression of the code under test
+                    osnr = base - margin
+                    for _ in range(8):
+                        if osnr + margin == base:
+                            break
+                        osnr = float(np.nextafter(osnr, osnr + (base - (osnr + margin))))
+                    if osnr + margin == base and abs(got - base) <= 0.004:
+                        ej3 = deepcopy(ej2)
+                        for m3 in next(t for t in ej3['Transceiver'] if t['type_variety'] == TRX)['mode']:
+                            if m3['format'] == best:
+                                m3['OSNR'] = osnr
+                        req3 = S.request('autoe', a, z, trx_type=TRX, trx_mode=None, spacing=spacing, bidir=False, max_nb=nb)
+                        _, _, rqs3, prop3, _, _ = run_planning(ej3, network, [req3])
+                        ctx.count('auto_selection_on_threshold_checks')
+                        b3 = getattr(rqs3[0], 'blocking_reason', None)
+                        if rqs3[0].tsp_mode != best or b3 is not None:
+                            ctx.violation('auto-mode-selection', f'auto {a}->{z}: {best} (first explored, metric {base}) '
+                                          f'is selected with threshold+margin {thr[best]:.4f}; with threshold+margin moved '
+                                          f'exactly onto the metric ({osnr + margin!r}, "at least") the outcome is mode '
+                                          f'{rqs3[0].tsp_mode}, blocking {b3}',
+                                          mechanism='auto-mode-strict-at-threshold')
         if len(feas) >= 2 and any(v for _, v in feas) and not all(v for _, v in feas):
             ctx.nontrivial((P.digest(tj), P.digest(trx2), a, z, 'auto', spacing, bidir))
         if not ctx.samples:
